@@ -7,7 +7,7 @@ use super::{
 };
 use crate::{
     error::{WriterError, WriterResult},
-    model::{Namespace, field::resolve_type, node::RustNode},
+    model::{Namespace, field::resolve_type, node::RustNode, structures::RustType},
     reader::{WELL_KNOWN_NAMESPACES, WriteXml},
 };
 use roxmltree::{Document, Node};
@@ -146,15 +146,38 @@ impl RustDocument {
         xml_name: &str,
         namespace: Option<&Namespace>,
     ) -> Option<Rc<RustNode>> {
+        self.find_component_by_xml_name(start_node, xml_name, namespace, false)
+    }
+
+    /// Type definitions and element declarations live in separate symbol spaces: a `base=` reference denotes the
+    /// type of that name even when a global element of the same name exists.
+    pub fn find_type_by_xml_name<'n>(
+        &mut self,
+        start_node: &Node<'n, 'n>,
+        xml_name: &str,
+        namespace: Option<&Namespace>,
+    ) -> Option<Rc<RustNode>> {
+        self.find_component_by_xml_name(start_node, xml_name, namespace, true)
+    }
+
+    fn find_component_by_xml_name<'n>(
+        &mut self,
+        start_node: &Node<'n, 'n>,
+        xml_name: &str,
+        namespace: Option<&Namespace>,
+        types_only: bool,
+    ) -> Option<Rc<RustNode>> {
         let rust_node = self.nodes.iter().find(|node| {
-            node.rust_type.xml_name().is_some_and(|n| n == xml_name) && node.in_namespace.as_deref() == namespace
+            node.rust_type.xml_name().is_some_and(|n| n == xml_name)
+                && node.in_namespace.as_deref() == namespace
+                && !(types_only && matches!(node.rust_type, RustType::Element(_)))
         });
 
         if let Some(rust_node) = rust_node {
             return Some(rust_node.clone());
         }
 
-        let alt_node = try_to_find_node_by_xml_name_in_xml_doc(start_node, xml_name, namespace, self).ok()?;
+        let alt_node = try_to_find_node_by_xml_name_in_xml_doc(start_node, xml_name, namespace, types_only, self).ok()?;
         Some(alt_node.into())
     }
 
@@ -187,6 +210,7 @@ fn try_to_find_node_by_xml_name_in_xml_doc<'n>(
     start_node: &'n Node<'n, 'n>,
     xml_name: &str,
     _namespace: Option<&Namespace>,
+    types_only: bool,
     doc: &mut RustDocument,
 ) -> WriterResult<RustNode> {
     // a definition that refers to itself, directly or through others, cannot be resolved by reading it again
@@ -195,12 +219,17 @@ fn try_to_find_node_by_xml_name_in_xml_doc<'n>(
     }
 
     doc.lookups_in_progress.push(xml_name.to_string());
-    let result = find_node_in_xml_doc(start_node, xml_name, doc);
+    let result = find_node_in_xml_doc(start_node, xml_name, types_only, doc);
     doc.lookups_in_progress.pop();
     result
 }
 
-fn find_node_in_xml_doc<'n>(start_node: &'n Node<'n, 'n>, xml_name: &str, doc: &mut RustDocument) -> WriterResult<RustNode> {
+fn find_node_in_xml_doc<'n>(
+    start_node: &'n Node<'n, 'n>,
+    xml_name: &str,
+    types_only: bool,
+    doc: &mut RustDocument,
+) -> WriterResult<RustNode> {
     // get to the root of the document from the start node
     let mut start_node = *start_node;
     while let Some(parent) = start_node.parent() {
@@ -212,6 +241,10 @@ fn find_node_in_xml_doc<'n>(start_node: &'n Node<'n, 'n>, xml_name: &str, doc: &
         if node.is_element() {
             // a reference can only denote a global component: a direct child of a schema element
             if !node.parent().is_some_and(|p| p.tag_name().name() == "schema") {
+                continue;
+            }
+
+            if types_only && node.tag_name().name() == "element" {
                 continue;
             }
 
